@@ -18,6 +18,7 @@ import (
 	"os"
 	"path/filepath"
 	"regexp"
+	"runtime"
 	"sort"
 	"strings"
 
@@ -92,6 +93,7 @@ type c26Scenario struct {
 }
 
 func streamC26(h *H) {
+	runtime.GOMAXPROCS(4) // the machine is shared; the streams are not CPU hungry
 	root := MkTemp("c26-")
 	defer os.RemoveAll(root)
 	nScen := h.N(24, 600)
